@@ -3,6 +3,7 @@ import KmipModel.Decode
 import KmipModel.Spec
 import KmipModel.Expect
 import KmipGen.Consts
+import KmipGen.Schema
 /-
   kvdriver: one request per input line, one reply per output line.  Runs the executable model and the
   executable specifications on the inputs the Go harness also gives to the real code.
@@ -51,6 +52,20 @@ def c18Report : String :=
   let total := (groups.map fun (_, _, reg, _) => reg.length).sum + KmipGen.tagMapStruct.length + KmipGen.tagMapField.length + KmipGen.tagConsts.length
   s!"ok {total} " ++ ";".intercalate (bad ++ tm ++ missing ++ coll)
 
+open Kmip.Expect in
+/-- C19: fields whose resolved tag differs from the spec's; nesting deviations -/
+def c19Report : String :=
+  let spec := SpecStructs.fields
+  let fieldBad := (List.zip KmipGen.fieldTable spec).filterMap fun ((t, f, ann, num), (t', f', tag, _)) =>
+    if t == t' && f == f' && num == (if offWire.contains (t, f) then 0xffffff else regTag tag) then none
+    else some s!"field|{t}.{f}|{ann}|{tag}={regTag tag}|{num}"
+  let lenBad := if KmipGen.fieldTable.length == spec.length then [] else [s!"field|count|-|{spec.length}|{KmipGen.fieldTable.length}"]
+  let pairs := (spec.map fun (t, _, _, c) => (t, c)).eraseDups
+  let nestBad := pairs.flatMap fun (t, c) =>
+    (KmipGen.holders.filter fun (t', _, h) => t' == t && !containerOk (regTag c) h).map fun (_, via, h) =>
+      s!"nesting|{t} (written via {via})|-|{c}={regTag c}|{h}"
+  s!"ok {KmipGen.fieldTable.length + pairs.length} " ++ ";".intercalate (fieldBad ++ lenBad ++ nestBad)
+
 def step (line : String) : String :=
   match tokens line with
   -- enctop <FV tokens of a DynV>: Encoder.Encode(v)
@@ -82,6 +97,7 @@ def step (line : String) : String :=
       | none => "none"
     | _, _ => "bad-op"
   | ["c18"] => c18Report
+  | ["c19"] => c19Report
   | _ => "bad-op"
 
 partial def loop (h : IO.FS.Stream) (out : IO.FS.Stream) : IO Unit := do
